@@ -113,9 +113,7 @@ def check_pop_order(rc: RuleCtx, rule: str, m: rm.LoopModel, tag: str):
                 else:
                     key_ok = False
             elif kw.arg == "key":
-                lam = kw.value
-                if not (isinstance(lam, ast.Lambda) and isinstance(lam.body, ast.Subscript) and isinstance(lam.body.value, ast.Name)
-                        and lam.body.value.id == lam.args.args[0].arg and isinstance(lam.body.slice, ast.Constant) and lam.body.slice.value == 0):
+                if rm.sort_key_field(m.fi, kw.value) != ("field", 0):
                     key_ok = False
         pop_call = pops[0].node
         pop_from_end = len(pop_call.args) == 0 or (isinstance(pop_call.args[0], ast.UnaryOp) and ast.unparse(pop_call.args[0]) == "-1")
